@@ -29,7 +29,7 @@ def run(r):
             v = parsefam.validate_traces(r, parsefam.split_trace_file(r, tr, 8), [])
             stats.append({"tokens": ntok, "gaplen": gl, "slice": "%d/%d" % (sl, ns), "cases": res["cases"], "states": res["states"], "machine_traces": v})
     rnd = pure.code_to_model(r, "trim", "TrimTrace", "TrimTrace.cfg", 8 if th else 2, dict(n=400 if th else 150, maxtok=12),
-                             lambda x: True, describe=lambda rows: rows[0])
+                             lambda x: True, describe=lambda rows: rows[0], group_key=lambda x: json.dumps([x["toks"], x["lm"], x["rm"]]))
     r.extra["families"] = stats
     r.extra["random"] = rnd
     r.exhaustive = all(x["slice"].endswith("/1") for x in stats)
